@@ -179,9 +179,12 @@ def layers(tier):
         for t in ths:
             for op in ('>=', '>', '='):
                 for fname in fnames:
-                    for nj in (((1, 1), (2, 1), (1, 2), (3, 3)) if op == '>=' else ((1, 1),)):
+                    for nj in (((1, 1), (2, 1), (1, 2), (3, 3)) if op == '>=' else ((1, 1), (2, 2))):
                         jobs.append({'gen': {'gen': 'univ', 'K': K}, 'meas': meas, 't': t, 'op': op,
                                      'filter': fname, 'nj': nj, 'pres': pres})
+            for fname in fnames:      # the longest record first (index min/max bookkeeping)
+                jobs.append({'gen': {'gen': 'univ', 'K': K - 1, 'Kr': K - 2, 'order': 'rev', 'lwin': [1, K - 1]},
+                             'meas': meas, 't': t, 'op': '>=', 'filter': fname, 'pres': pres})
             for fname in fnames:
                 jobs.append({'gen': {'gen': 'univ', 'K': K - 1, 'Kr': K, 'dup': True}, 'meas': meas, 't': t,
                              'op': '>=', 'filter': fname, 'tok': ['ws', False], 'pres': pres})
